@@ -119,7 +119,7 @@ class Sim:
             return n == 2 and fresh(w[1])
         if op in ("ctor_copy", "ctor_move"):
             return n == 3 and fresh(w[1]) and self._src_ok(w[2]) and self._typ(w[1]) == self._typ(w[2])
-        if op == "ctor_conv":
+        if op in ("ctor_conv", "ctor_convmove"):
             return n == 3 and fresh(w[1]) and self._typ(w[1]) == "b" and w[2] in DSLOTS and self._src_ok(w[2])
         if op == "ctor_raw":
             return n == 3 and fresh(w[1]) and self._obj_ok(w[2])
@@ -129,7 +129,7 @@ class Sim:
             return n == 3 and self._tgt_ok(w[1]) and self._src_ok(w[2]) and self._typ(w[1]) == self._typ(w[2])
         if op == "selfmove":
             return n == 2 and self._tgt_ok(w[1])
-        if op == "conv":
+        if op in ("conv", "convmove"):
             return n == 3 and self._tgt_ok(w[1]) and self._typ(w[1]) == "b" and w[2] in DSLOTS and self._src_ok(w[2])
         if op == "raw":
             return n == 3 and self._tgt_ok(w[1]) and self._obj_ok(w[2])
@@ -149,7 +149,7 @@ class Sim:
             self.put(w[1], -1)
         elif op in ("ctor_copy", "ctor_conv"):
             self.put(w[1], self.val(w[2]))
-        elif op == "ctor_move":
+        elif op in ("ctor_move", "ctor_convmove"):
             self.put(w[1], self.val(w[2])); self.put(w[2], -1)
         elif op == "ctor_raw":
             self.put(w[1], int(w[2]))
@@ -157,6 +157,8 @@ class Sim:
             self.cells[w[1]] = None
         elif op in ("copy", "conv"):
             self.put(w[1], self.val(w[2]))
+        elif op == "convmove":
+            v = self.val(w[2]); self.put(w[2], -1); self.put(w[1], v)
         elif op == "move":
             if w[1] != w[2]:
                 v = self.val(w[2]); self.put(w[2], -1); self.put(w[1], v)
@@ -208,7 +210,7 @@ def _gen_seq(rng, n_ops):
             elif k == 2 and live: emit("ctor_raw", x, rng.pick(live))
             elif k == 3 and src: emit("ctor_copy", x, rng.pick(src))
             elif k == 4 and src: emit("ctor_move", x, rng.pick(src))
-            elif k == 5 and not useD and dsrc: emit("ctor_conv", x, rng.pick(dsrc))
+            elif k == 5 and not useD and dsrc: emit(rng.pick(["ctor_conv", "ctor_convmove"]), x, rng.pick(dsrc))
         elif r < 0.37:
             made = s.made(BSLOTS + DSLOTS)
             if made:
@@ -233,7 +235,7 @@ def _gen_seq(rng, n_ops):
                         emit("move", x, y)
         elif r < 0.78:
             if btgt and dsrc:
-                emit("conv", rng.pick(btgt), rng.pick(dsrc))
+                emit(rng.pick(["conv", "conv", "convmove"]), rng.pick(btgt), rng.pick(dsrc))
         elif r < 0.88:
             tgt = btgt + dsrc
             if tgt:
@@ -378,7 +380,7 @@ def disciplined(case, original=None):
     return True
 
 
-_REL = ("dtor", "copy", "move", "selfmove", "conv", "raw", "null", "dec", "mtrun")
+_REL = ("dtor", "copy", "move", "selfmove", "conv", "convmove", "ctor_convmove", "raw", "null", "dec", "mtrun")
 
 
 def nontrivial(case):
